@@ -371,6 +371,12 @@ class Sched:
     def yield_to_others(self, why="spin"):
         """The current thread spins: disable it until some other thread has run (or time advanced)."""
         mark = (self.switches, self.time_advances)
+        # fairness: a spinner goes to the back of the priority order, otherwise two spinners of high priority hand the processor to
+        # each other for ever and the thread both are waiting for never runs
+        t = self.current
+        if t in self.prio:
+            self.prio.remove(t)
+            self.prio.append(t)
         return self.block(lambda: (self.switches, self.time_advances) != mark, None, why)
 
     # ------------------------------------------------------------------ driver-side operations
